@@ -18,6 +18,7 @@
 //                                            n = Integer; "-" = no fields; field keys f0, f1, ...                       -> runtime marker type #k
 //   R <thread#> <I|V|B|E> <t1> <t2> <type#> <name> <v0,v1,..|-> <frames..>   add_marker with a runtime-schema marker (one value per field: a word for
 //                                            string fields, an integer for number fields) + set_marker_stack when frames are given
+//   ("~" stands for the empty string in label frames, marker names / texts and marker string fields)
 //   C <proc#> <name>                         add_counter                       -> counter #k
 //   D <counter#> <time_ns> <value> <n>       add_counter_sample
 //   V <thread#> / W <thread#>                add_initial_visible_thread / add_initial_selected_thread
@@ -87,7 +88,7 @@ fn stack_of(profile: &mut Profile, thread: ThreadHandle, frames: &[&str], nsyms:
     let mut stack = None;
     for f in frames {
         let fh = if let Some(n) = f.strip_prefix('l') {
-            let s = profile.handle_for_string(n);
+            let s = profile.handle_for_string(if n == "~" { "" } else { n });
             profile.handle_for_frame_with_label(thread, s, CategoryHandle::OTHER, FrameFlags::empty())
         } else if let Some(a) = f.strip_prefix('a') {
             let a = u64::from_str_radix(a, 16).unwrap();
@@ -189,8 +190,8 @@ pub fn run(line: &str) -> String {
                 }
                 "K" => {
                     let th = threads[t[1].parse::<usize>().unwrap()];
-                    let name = profile.handle_for_string(t[3]);
-                    let text = profile.handle_for_string(t[4]);
+                    let name = profile.handle_for_string(if t[3] == "~" { "" } else { t[3] });
+                    let text = profile.handle_for_string(if t[4] == "~" { "" } else { t[4] });
                     let mh = profile.add_marker(th, MarkerTiming::Instant(ns(t[2])), TextMarker { name, text });
                     if t.len() > 5 {
                         let stack = stack_of(&mut profile, th, &t[5..], &nsyms);
@@ -240,7 +241,7 @@ pub fn run(line: &str) -> String {
                         x => panic!("bad timing {x}"),
                     };
                     let (ty, kinds) = mtypes[t[5].parse::<usize>().unwrap()].clone();
-                    let name = profile.handle_for_string(t[6]);
+                    let name = profile.handle_for_string(if t[6] == "~" { "" } else { t[6] });
                     let vals: Vec<&str> = if t[7] == "-" { vec![] } else { t[7].split(',').collect() };
                     let mut strings = Vec::new();
                     let mut numbers = Vec::new();
@@ -249,7 +250,7 @@ pub fn run(line: &str) -> String {
                             strings.push(None);
                             numbers.push(Some(vals[i].parse::<f64>().unwrap()));
                         } else {
-                            strings.push(Some(profile.handle_for_string(vals[i])));
+                            strings.push(Some(profile.handle_for_string(if vals[i] == "~" { "" } else { vals[i] })));
                             numbers.push(None);
                         }
                     }
